@@ -169,3 +169,118 @@ example : MvStream.run (MvStream.init [1,2,3,4,5])
   decide
 
 end Ts.Storage
+
+/-! ## Short writes -/
+namespace Ts.Storage
+
+theorem bufferedWrite_ok (os : Os) : ∀ (fuel : Nat) (file data out : Bytes),
+    bufferedWrite os fuel file data = .ok out → out = file ++ data
+  | _, file, [], out, h => by simp [bufferedWrite] at h; simp [h]
+  | 0, file, _ :: _, out, h => by simp [bufferedWrite] at h
+  | fuel + 1, file, d :: ds, out, h => by
+    unfold bufferedWrite at h
+    split at h
+    · cases h
+    · rename_i n _
+      have := bufferedWrite_ok os fuel _ _ out h
+      rw [this, List.append_assoc, List.take_append_drop]
+
+/-- **A write that returns has stored the whole buffer.** For every operating-system behaviour — any pattern of short
+writes and failures — if `FSStoragePlugin.write` returns normally the file holds exactly the buffer; a short write is
+never mistaken for a completed one. -/
+theorem C20_write_returns_complete (os : Os) (data out : Bytes)
+    (h : pluginWrite os data = .ok out) : out = data := by
+  have := bufferedWrite_ok os _ [] data out h
+  simpa using this
+
+theorem bufferedWrite_progress (os : Os) (hl : os.Lawful) (hnf : ∀ off k, os off k ≠ .failed) :
+    ∀ (fuel : Nat) (file data : Bytes), data.length < fuel → ∃ out, bufferedWrite os fuel file data = .ok out
+  | _, file, [], _ => ⟨file, by simp [bufferedWrite]⟩
+  | 0, _, _ :: _, h => by simp at h
+  | fuel + 1, file, d :: ds, h => by
+    unfold bufferedWrite
+    cases hos : os file.length (d :: ds).length with
+    | failed => exact absurd hos (hnf _ _)
+    | accepted n =>
+      simp only
+      have hn := hl _ _ _ (by simp) hos
+      apply bufferedWrite_progress os hl hnf fuel
+      simp only [List.length_drop, List.length_cons] at h hn ⊢
+      omega
+
+/-- and when the OS never fails, the write does return (so the theorem above is not vacuous), however short the
+individual writes are -/
+theorem C20_write_succeeds_despite_short_writes (os : Os) (hl : os.Lawful) (hnf : ∀ off k, os off k ≠ .failed)
+    (data : Bytes) : pluginWrite os data = .ok data := by
+  obtain ⟨out, h⟩ := bufferedWrite_progress os hl hnf (data.length + 1) [] data (by omega)
+  have := C20_write_returns_complete os data out h
+  unfold pluginWrite
+  rw [h, this]
+
+theorem osLimit_lawful (limit : Nat) : (osLimit limit).Lawful := by
+  intro off k n hk h
+  unfold osLimit at h
+  split at h
+  · cases h
+  · simp only [OsWrite.accepted.injEq] at h
+    omega
+
+theorem limit_fits (limit : Nat) : ∀ (fuel : Nat) (file data : Bytes),
+    file.length + data.length ≤ limit → data.length < fuel →
+    bufferedWrite (osLimit limit) fuel file data = .ok (file ++ data)
+  | _, file, [], _, _ => by simp [bufferedWrite]
+  | 0, _, _ :: _, _, h => by simp at h
+  | fuel + 1, file, d :: ds, hfit, _ => by
+    unfold bufferedWrite
+    simp only [List.length_cons] at hfit
+    have hoff : ¬ file.length ≥ limit := by omega
+    have hmin : min (d :: ds).length (limit - file.length) = (d :: ds).length := by
+      simp only [List.length_cons]; omega
+    simp only [osLimit, hoff, if_false, hmin, List.take_length, List.drop_length]
+    cases fuel with
+    | zero => simp [bufferedWrite]
+    | succ f => simp [bufferedWrite]
+
+theorem limit_exceeded (limit : Nat) : ∀ (fuel : Nat) (file data : Bytes),
+    limit < file.length + data.length → file.length ≤ limit → data ≠ [] → data.length < fuel →
+    ∃ part, bufferedWrite (osLimit limit) fuel file data = .error (.osError, part)
+  | _, _, [], _, _, hne, _ => absurd rfl hne
+  | 0, _, _ :: _, _, _, _, h => by simp at h
+  | fuel + 1, file, d :: ds, hex, hle, _, hf => by
+    unfold bufferedWrite
+    by_cases hoff : file.length ≥ limit
+    · exact ⟨file, by simp [osLimit, hoff]⟩
+    · simp only [List.length_cons] at hex hf
+      have hmin : min (d :: ds).length (limit - file.length) = limit - file.length := by
+        simp only [List.length_cons]; omega
+      simp only [osLimit, hoff, if_false, hmin]
+      apply limit_exceeded limit fuel
+      · simp only [List.length_append, List.length_take, List.length_drop, List.length_cons]; omega
+      · simp only [List.length_append, List.length_take, List.length_cons]; omega
+      · intro h
+        have := congrArg List.length h
+        simp only [List.length_drop, List.length_cons, List.length_nil] at this
+        omega
+      · simp only [List.length_drop, List.length_cons]; omega
+
+/-- under a file-size limit (`RLIMIT_FSIZE`, a quota, a full disk): data that fits is written completely; data that
+does not makes the write raise — it never returns — and leaves a partial file behind -/
+theorem C20_write_under_size_limit (limit : Nat) (data : Bytes) :
+    (data.length ≤ limit → pluginWrite (osLimit limit) data = .ok data) ∧
+    (limit < data.length → ∃ part, pluginWrite (osLimit limit) data = .error (.osError, part)) := by
+  constructor
+  · intro hle
+    have := limit_fits limit (data.length + 1) [] data (by simpa using hle) (by omega)
+    simpa [pluginWrite] using this
+  · intro hlt
+    have hne : data ≠ [] := by intro h; rw [h] at hlt; simp at hlt
+    exact limit_exceeded limit (data.length + 1) [] data (by simpa using hlt) (by simp) hne (by omega)
+
+/-- witness: the same data through an unbuffered raw file whose return value is ignored is reported as written although
+only the first `limit` bytes are in the file -/
+theorem C20_witness_unchecked_short_write :
+    rawWriteUnchecked (osLimit 4) [1, 2, 3, 4, 5, 6] = .ok [1, 2, 3, 4] ∧
+    (∃ part, pluginWrite (osLimit 4) [1, 2, 3, 4, 5, 6] = .error (.osError, part)) := by
+  refine ⟨rfl, ⟨[1, 2, 3, 4], rfl⟩⟩
+
+end Ts.Storage
